@@ -111,6 +111,110 @@ def _c12_case(shape, text, preemptions, skip=False, wf_name='wf'):
     return case
 
 
+ITEMS_SUBWF = """
+version: '2.0'
+parent:
+  tasks:
+    p1:
+      with-items: i in [0, 1]
+      workflow: child
+      on-success: p2
+    p2:
+      action: std.noop
+child:
+  tasks:
+    c1:
+      action: std.noop
+"""
+
+
+def _c12_items_case(preemptions):
+    """two sub-workflows of one with-items task failed; the failed task of
+    each is rerun; the reruns finish in any order with any outcome"""
+    def case():
+        from vt.world import World
+        from vt.explorer import Explorer
+        from mistral_lib import actions as ml
+        sig = 'C12.items'
+        w = World([ITEMS_SUBWF])
+        with w:
+            ex = Explorer(w, sig, preemptions=0)
+            phase = {'n': 1}
+
+            def child_index(ev):
+                tid = ev.payload['exec_ctx'].get('task_execution_id')
+                t = [x for x in w.rows('TaskExecution') if x['id'] == tid][0]
+                wf = w.wf_ex(t['workflow_execution_id'])
+                if wf['workflow_name'] != 'child':
+                    return None
+                return (wf['runtime_context'] or {}).get('index')
+
+            def result_for(ev):
+                i = child_index(ev)
+                if i is None:
+                    return ml.Result(data='ok')
+                if phase['n'] == 1:
+                    return ml.Result(error='first attempt fails')
+                out = ex.outcome('second%s' % i)
+                return ml.Result(data='ok%s' % i) if out == 'SUCCESS' \
+                    else ml.Result(error='boom%s' % i)
+            ex.result_for = result_for
+            wid = w.start('parent')
+            ex.check_invariants()
+            ex.run()
+            root = w.wf_ex(wid)
+            assume(root['state'] == 'ERROR')
+            reach('first-run-failed')
+            victims = [t for t in w.rows('TaskExecution')
+                       if t['name'] == 'c1' and t['state'] == 'ERROR']
+            assume(len(victims) == 2)
+            phase['n'] = 2
+            ex.rerun_allowed = True
+            ex.preemptions = preemptions
+            info = {'trace': ex.trace}
+            for t in victims:
+                r, errs = ex.operator('rerun_workflow', t['id'], reset=True)
+                check(not errs, 'rerun-of-failed-task-refused',
+                      dict(info, signature=sig + ':refused',
+                           errors=[repr(e)[:200] for e in errs]))
+            p1 = w.task('p1', wid)
+            check(p1['state'] == 'RUNNING' and
+                  w.wf_ex(wid)['state'] == 'RUNNING',
+                  'parent-not-running-after-rerun',
+                  dict(info, signature=sig + ':parent-task',
+                       p1=p1['state'], root=w.wf_ex(wid)['state']))
+            real_deliver = ex.deliver
+
+            def deliver(ev, *a, **k):
+                real_deliver(ev, *a, **k)
+                kids = [x for x in w.rows('WorkflowExecution')
+                        if x['task_execution_id']]
+                p1_ = w.task('p1', wid)
+                if any(x['state'] == 'RUNNING' for x in kids):
+                    reach('one-child-still-running')
+                    check(p1_['state'] == 'RUNNING',
+                          'parent-task-finished-with-a-child-running',
+                          dict(info, signature=sig + ':parent-early',
+                               p1=p1_['state'],
+                               kids=[x['state'] for x in kids]))
+            ex.deliver = deliver
+            ex.run()
+            reach('rerun-done')
+            outs = [ex.outcomes.get('second0'), ex.outcomes.get('second1')]
+            want = 'SUCCESS' if outs == ['SUCCESS', 'SUCCESS'] else 'ERROR'
+            p1 = w.task('p1', wid)
+            root = w.wf_ex(wid)
+            info = {'trace': ex.trace[-30:], 'outcomes': outs}
+            check(p1['state'] == want and root['state'] == want,
+                  'nested-rerun-wrong-final',
+                  dict(info, signature=sig + ':final', p1=p1['state'],
+                       root=root['state'], want=want))
+            check((w.task('p2', wid) is not None) == (want == 'SUCCESS'),
+                  'follow-up-of-parent-task-wrong',
+                  dict(info, signature=sig + ':follow-up'))
+    return case
+
+
 @obligation(
     'C12.E', engine='symx+world(minidb)',
     functions=['mistral.engine.default_engine:DefaultEngine.rerun_workflow',
@@ -126,7 +230,10 @@ def _c12_case(shape, text, preemptions, skip=False, wf_name='wf'):
                'mistral.workflow.direct_workflow:'
                'DirectWorkflowController._find_next_tasks'],
     bounds={'quick': 'shapes chain3, fork_join, join_2_of_3_mixed, '
-                     'skip routes (with / without on-skip), parent+child; '
+                     'skip routes (with / without on-skip), parent+child, a '
+                     'with-items task over two sub-workflows that both '
+                     'failed and are both rerun (outcomes and <= 2 '
+                     'out-of-order deliveries symbolic); '
                      'first run with symbolic outcomes until the workflow '
                      'is ERROR; victim = any unhandled failed action task '
                      '(symbolic), reset symbolic, new outcome symbolic; FIFO',
@@ -151,6 +258,9 @@ def c12_e(ctx):
     yield Case('subwf', _c12_case('subwf', shapes.SUBWF_PLAIN, k,
                                   wf_name='parent'),
                needed=['first-run-failed', 'rerun-done', 'nested-rerun'])
+    yield Case('items-subwf', _c12_items_case(max(k, 1) + 1),
+               needed=['first-run-failed', 'rerun-done',
+                       'one-child-still-running'])
     for shape, text in (('skip_routes', shapes.SKIP_ROUTES),
                         ('skip_no_onskip', shapes.SKIP_NO_ONSKIP),
                         ('chain3', shapes.CHAIN3)):
